@@ -233,6 +233,8 @@ class C07(Prop):
             case['sampled'] = True
         if cassette == 's3' and rng.random() < 0.4:
             case['ia'] = rng.choice([0.001, 0.25, 10 ** 6])      # recordings at least this large go to the infrequent-access class
+        if rng.random() < 0.15:
+            case['twice'] = True      # every recording object is also handed to a second cassette of the same kind (a mirror)
         main_id = recording_id(case, main)
         unknown = ['nope', main_id + 'x', main_id[:-1], '%s/%s' % (main['category'], _hex(7)), '']
         if cassette == 's3':
@@ -337,8 +339,17 @@ class C07(Prop):
                 calc = (lambda category, size, recording: 0.999999999) if case.get('sampled') else None
                 cassette = s3mod.S3TapeCassette('verif-bucket', key_prefix=case['prefix'], read_only=False, sampling_calculator=calc,
                                                  infrequent_access_kb_threshold=case.get('ia'))
+            self._second = None
+            if case.get('twice'):
+                if case['cassette'] == 'memory':
+                    self._second = InMemoryTapeCassette()
+                elif case['cassette'] == 'file':
+                    self._second = FileBasedTapeCassette(os.path.join(tmp, 'mirror'))
+                else:
+                    self._second = s3mod.S3TapeCassette('verif-bucket-mirror', key_prefix=case['prefix'], read_only=False)
             return self.drive(case, cassette, tmp)
         finally:
+            self._second = None
             uuid.uuid1 = real_uuid1
             if s3mod is not None:
                 s3mod.datetime = real_datetime.datetime
@@ -368,6 +379,13 @@ class C07(Prop):
                 cassette.save_recording(r)
             except Exception as ex:      # (a value of the faithful domain: the oracle reports it)
                 snap['save_error'] = type(ex).__name__
+            if getattr(self, '_second', None) is not None and 'save_error' not in snap:
+                # the same recording object is saved through a second cassette as well: that one holds it too
+                try:
+                    self._second.save_recording(r)
+                    snap['second'] = self.fetch(self._second, r.id)
+                except Exception as ex:
+                    snap['second'] = {'err': 'save:' + type(ex).__name__}
             # late mutations of everything the caller still holds: none of it may reach the stored recording
             for v in live + table + list(meta.values()):
                 if isinstance(v, list):
@@ -600,6 +618,14 @@ class C07(Prop):
             if got['meta_alone'] != got['meta']:
                 fails.append('[%s] %s: get_recording_metadata gives %s, the full recording has %s'
                              % (tag, who, json.dumps(got['meta_alone'])[:200], json.dumps(got['meta'])[:200]))
+            sec = impl['saved'][n].get('second') if i < len(recs) else None
+            if sec is not None and tag == 'plain' and not (recs[n]['shared'] and True):
+                own = impl['saved'][n]
+                if 'err' in sec:
+                    fails.append('[plain] recording %d handed to a second cassette as well: %s' % (i, sec['err']))
+                elif sec['keys'] != own['keys'] or {k: v for k, v in sec['data']} != {k: v for k, v in own['data']} or sec['meta'] != own['meta']:
+                    fails.append('[plain] recording %d handed to a second cassette as well: that one holds keys %r / metadata %s, saved were %r / %s'
+                                 % (i, sec['keys'][:10], json.dumps(sec['meta'])[:150], own['keys'][:10], json.dumps(own['meta'])[:150]))
         for uid, (a, b) in zip(case['unknown'], impl['unknown']):
             if a != 'NoSuchRecording':
                 fails.append('[plain] get_recording(%r) for a never saved id: %s' % (uid, a))
@@ -623,6 +649,11 @@ class C07(Prop):
         return bool(case['main']['data'] or case['main']['meta'])
 
     def features(self, case, impl):
+        if isinstance(case, dict) and case.get('twice'):
+            return ['recording-objects-also-saved-through-a-second-cassette'] + self._features(case, impl)
+        return self._features(case, impl)
+
+    def _features(self, case, impl):
         if case.get('kind') == 'threadsave':
             return ['threads-saving-through-one-cassette:' + case['cassette']]
         out = ['cassette:' + case['cassette'], 'before:%d' % len(case['before']), 'after:%d' % len(case['after']),
